@@ -123,6 +123,8 @@ func C10(rep *ev.Reporter, tier string) {
 			return fmt.Sprintf(`Retract("%s")`, others[len(others)-1])
 		case "Ru":
 			return `Retract("Unknown")`
+		case "Rf":
+			return `Retract("F")` // no rule has this name - it is the key of the fact in the data context
 		case "C":
 			return "Complete()"
 		case "H":
@@ -144,7 +146,7 @@ func C10(rep *ev.Reporter, tier string) {
 		if len(cur) == maxLen {
 			return
 		}
-		for _, c := range append(append([]string{}, codes[:5]...), "H") {
+		for _, c := range append(append([]string{}, codes[:5]...), "H", "Rf") {
 			rec(append(cur, c))
 		}
 	}
